@@ -604,3 +604,129 @@ func init() {
 		},
 	})
 }
+
+// ---- C01: the same release function called concurrently from two threads ----
+
+func init() {
+	bg := context.Background()
+	// concurrentRelease: the holder's release function is called by two threads at once while
+	// other threads acquire; a repeated release must never free somebody else's hold.
+	mutexBody := func(viaTry bool) func() {
+		return func() {
+			var m csync.Mutex
+			var rel func()
+			if viaTry {
+				r, ok := m.TryLock()
+				if !ok {
+					fail("C01.trylock-free", "TryLock failed on a fresh Mutex")
+					return
+				}
+				rel = r
+			} else {
+				rel, _ = m.Lock(bg)
+			}
+			acquired(true)
+			releasing(true) // from now on the first release call may happen at any time
+			T("RelA", func() { rel() })
+			T("RelB", func() { rel() })
+			T("L", func() { useMutex(&m, bg, false) })
+			T("Try", func() { tryMutex(&m, false) })
+			finalProbeMutex(&m)
+		}
+	}
+	eng.Register(&eng.Scenario{
+		Name: "csync-M5", Props: []string{"C01"}, MustFinish: true, ObsNames: stdObs,
+		Doc:   "Mutex: the release function of one Lock acquisition is called concurrently by two threads while a third thread Locks and a fourth TryLocks: a repeated release may not free another holder",
+		Quick: eng.Bounds{PB: 2}, Thorough: eng.Bounds{PB: 3},
+		Body:  mutexBody(false),
+	})
+	eng.Register(&eng.Scenario{
+		Name: "csync-M6", Props: []string{"C01"}, MustFinish: true, ObsNames: stdObs,
+		Doc:   "Mutex: as csync-M5 with a release function obtained from TryLock",
+		Quick: eng.Bounds{PB: 2}, Thorough: eng.Bounds{PB: 3},
+		Body:  mutexBody(true),
+	})
+	rwBody := func(write, viaTry bool) func() {
+		return func() {
+			var m csync.RWMutex
+			var rel func()
+			if viaTry {
+				r, ok := m.TryLock(write)
+				if !ok {
+					fail("C01.trylock-free", "TryLock failed on a fresh RWMutex")
+					return
+				}
+				rel = r
+			} else {
+				rel, _ = m.Lock(bg, write)
+			}
+			acquired(write)
+			releasing(write)
+			T("RelA", func() { rel() })
+			T("RelB", func() { rel() })
+			T("W", func() { useRW(&m, bg, true, false) })
+			T("R", func() { useRW(&m, bg, false, false) })
+			finalProbeRW(&m)
+		}
+	}
+	eng.Register(&eng.Scenario{
+		Name: "csync-RW5", Props: []string{"C01"}, MustFinish: true, ObsNames: stdObs,
+		Doc:   "RWMutex: the release function of a write (or read, choice) acquisition, obtained from Lock or TryLock (choice), is called concurrently by two threads while a writer and a reader acquire",
+		Quick: eng.Bounds{PB: 2}, Thorough: eng.Bounds{PB: 3},
+		Body: func() {
+			rwBody(vsched.Choose(2) == 1, vsched.Choose(2) == 1)()
+		},
+	})
+}
+
+// ---- C02: a waiting writer is cancelled at the same time as the holder releases ----
+
+func init() {
+	bg := context.Background()
+	body := func(holderWrites bool) func() {
+		return func() {
+			var m csync.RWMutex
+			ctx, cancel := context.WithCancel(bg)
+			g1, g2, gF := &vsched.Gate{}, &vsched.Gate{}, &vsched.Gate{}
+			// phase 1: the late reader starts (W is parked); phase 2: the holder releases AND the
+			// writer's context is cancelled, in every interleaving; phase 3: final probe
+			phases(gates(g2), gates(g1), gates(gF))
+			rel, _ := m.Lock(bg, holderWrites)
+			acquired(holderWrites)
+			T("H", func() { g1.Wait(); releasing(holderWrites); rel() })
+			T("W", func() {
+				label(lRW)
+				relW, err := m.Lock(ctx, true)
+				label("")
+				vsched.CtrSet(cW2Ret, 1)
+				if err == nil {
+					acquired(true)
+					vsched.Point()
+					releasing(true)
+					relW()
+				} else if err != context.Canceled {
+					fail("C02.cancel-error", "Lock returned %v", err)
+				}
+			})
+			T("R2", func() {
+				g2.Wait()
+				useRW(&m, bg, false, false)
+			})
+			T("C", func() { g1.Wait(); cancel() })
+			gF.Wait()
+			finalProbeRW(&m)
+		}
+	}
+	eng.Register(&eng.Scenario{
+		Name: "csync-L8", Props: []string{"C02", "C01"}, MustFinish: true, ObsNames: stdObs,
+		Doc:   "RWMutex: a reader holds behind a gate, a cancellable writer W waits, reader R2 queues behind W; then the holder releases and W's context is cancelled concurrently (W may be cancelled after R2 re-checked and went back to sleep): nobody may stay parked",
+		Quick: eng.Bounds{PB: 2}, Thorough: eng.Bounds{PB: 3},
+		Body:  body(false),
+	})
+	eng.Register(&eng.Scenario{
+		Name: "csync-L9", Props: []string{"C02", "C01"}, MustFinish: true, ObsNames: stdObs,
+		Doc:   "RWMutex: as csync-L8 with a writer as the initial holder",
+		Quick: eng.Bounds{PB: 2}, Thorough: eng.Bounds{PB: 3},
+		Body:  body(true),
+	})
+}
